@@ -716,6 +716,21 @@ func runC02(c *Ctx) {
 	if !(hasFlag && hasSib && hasOne) {
 		probs = append(probs, "the size given to the rebuild is not (flagged size + sibling size + 1)")
 	}
+	// the sibling whose size is added is a child of the current root on every way here: a nil left over from the
+	// declaration (the assignment on one descent missing) counts that side as empty
+	for _, l := range append(append([]ssa.Value{}, insLeaves...), ls...) {
+		call, ok := l.(*ssa.Call)
+		if !ok || staticCallee(&call.Call) != nodeSize || len(call.Call.Args) == 0 {
+			continue
+		}
+		var lv []ssa.Value
+		phiLeaves(call.Call.Args[0], nil, map[ssa.Value]bool{}, &lv)
+		for _, v := range lv {
+			if isNilConst(v) {
+				probs = append(probs, "on one descent the sibling whose size enters the count is never assigned (nil): the subtree is taken to be smaller than it is, and the scapegoat test and the rebuild use a wrong size")
+			}
+		}
+	}
 	// result returned, flag cleared
 	retOK := false
 	if hostCall == nil {
